@@ -503,3 +503,39 @@ Proof.
   rewrite <- (changes_rev es).
   rewrite <- Hl, <- Hr, <- lhs_of_rev, <- rhs_of_rev. apply cost_lower_bound.
 Qed.
+
+(* ------------------------------------------------------------------ *)
+(* the registry comparison made when a machine starts                   *)
+
+Lemma map_injective {A B} (f : A -> B) : (forall x y, f x = f y -> x = y) ->
+  forall l1 l2, map f l1 = map f l2 -> l1 = l2.
+Proof.
+  intros Hf l1. induction l1 as [|x l1 IH]; intros [|y l2] H; simpl in H; try discriminate; [reflexivity|].
+  injection H as H1 H2. f_equal; [now apply Hf | now apply IH].
+Qed.
+
+(* If Funcs are told apart by their creation sites (created on different lines),
+   the diff of two registries is nil exactly when they hold the same Funcs in the
+   same order. *)
+Theorem registry_diff_nil_iff {F : Type} (site : F -> string) :
+  (forall f g, site f = site g -> f = g) ->
+  forall driver worker : list F,
+  func_locations_diff (func_locations (map site driver)) (func_locations (map site worker)) = DLines []
+  <-> driver = worker.
+Proof.
+  intros Hinj driver worker. unfold func_locations. rewrite diff_nil_iff. split.
+  - apply map_injective, Hinj.
+  - now intros ->.
+Qed.
+
+(* Conversely, were every Func to record the same location (what runtime.Caller(0)
+   inside Func would give), any two registries of equal length would compare as
+   identical: the check would be blind to reordered or different Funcs. *)
+Theorem constant_site_blind {F : Type} (s : string) : forall driver worker : list F,
+  List.length driver = List.length worker ->
+  func_locations_diff (map (fun _ => s) driver) (map (fun _ => s) worker) = DLines [].
+Proof.
+  intros driver worker Hl. apply diff_nil_iff.
+  revert worker Hl. induction driver as [|x d IH]; intros [|y w] Hl; simpl in Hl; try discriminate; [reflexivity|].
+  simpl. f_equal. apply IH. now injection Hl.
+Qed.
